@@ -655,9 +655,10 @@ def _apply_caps(current_node, current_edges, caps):
     return state_node.get_tensor()
 
 
-def _apply_pt_mpos(current_node, current_edges, pt_mpos):
+def _apply_pt_mpos(current_node, current_edges, pt_mpos, reverse=False):
     """
-    Apply MPO for forward propagation step
+    Apply MPO for forward propagation step (in reverse list order if
+    `reverse` is true, as needed to propagate backwards).
 
         before mpo application:
             [1]
@@ -690,7 +691,10 @@ def _apply_pt_mpos(current_node, current_edges, pt_mpos):
             |          |
                        |
     """
-    for i, pt_mpo in enumerate(pt_mpos):
+    indexed_pt_mpos = list(enumerate(pt_mpos))
+    if reverse:
+        indexed_pt_mpos.reverse()
+    for i, pt_mpo in indexed_pt_mpos:
         if pt_mpo is None:
             continue
         pt_mpo_node = tn.Node(pt_mpo)
@@ -701,6 +705,8 @@ def _apply_pt_mpos(current_node, current_edges, pt_mpos):
         current_node = current_node @ pt_mpo_node
         current_edges[i] = new_bond_edge
         current_edges[-1] = new_sys_edge
+    if reverse:
+        current_node.reorder_edges(current_edges)
     return current_node, current_edges
 
 def _apply_derivative_pt_mpos(current_node,current_edges,pt_mpos):
